@@ -180,6 +180,10 @@ pub fn check_spec(ctx: &Ctx, rep: &mut Report, fx: &Fixture, n: u64, spec: &Stmt
         }
     };
     rep.count("engine_executions", 3);
+    if matches!(&ref_out, Outcome::Failed(m) if m.starts_with("step budget exceeded")) {
+        rep.inconclusive("the reference statement exceeded the engine step budget");
+        return;
+    }
     for (form, out, sql) in [("inline", &inline_out, &inline), ("parameterised", &param_out, &param)] {
         if *out != ref_out {
             let what = match (out, &ref_out) {
